@@ -111,8 +111,8 @@ theorem readStdKeyword_spec (n0 : Byte) (ns : List Byte) (hname : (n0 :: ns).all
   exact putback_good x _ r sk
 
 theorem alpha_facts {c : Byte} (h : isAlpha c = true) :
-    isSpace c = false ∧ c ≠ 47 ∧ c ≠ 38 ∧ c ≠ 40 ∧ c ≠ 33 ∧ c ≠ 35 ∧ isDigit c = false ∧ kwc c = true := by
-  refine ⟨?_, ?_, ?_, ?_, ?_, ?_, ?_, ?_⟩ <;> simp [isSpace, isDigit, kwc, isAlnum, isAlpha, isUpper, isLower] at * <;> bomega
+    isSpace c = false ∧ c ≠ 47 ∧ c ≠ 38 ∧ c ≠ 40 ∧ c ≠ 33 ∧ c ≠ 35 ∧ isDigit c = false ∧ kwc c = true ∧ c ≠ 92 := by
+  refine ⟨?_, ?_, ?_, ?_, ?_, ?_, ?_, ?_, ?_⟩ <;> simp [isSpace, isDigit, kwc, isAlnum, isAlpha, isUpper, isLower] at * <;> bomega
 
 /-! ## one record -/
 
@@ -157,9 +157,10 @@ theorem seps_then (seps : List Byte) (hs : Seps seps) (x : Byte) (rest : List By
   · exact h47
   · exact hx
 
-theorem readTokenSeparator_none (l : List Byte) (c : Byte) (t : List Byte) (sk : Bool) (hc : isSpace c = false) (h47 : c ≠ 47) :
+theorem readTokenSeparator_none (l : List Byte) (c : Byte) (t : List Byte) (sk : Bool) (hc : isSpace c = false) (h47 : c ≠ 47)
+    (h92 : c ≠ 92 := by decide) :
     readTokenSeparator (G l (c :: t) sk) = G l (c :: t) sk := by
-  simpa using readTokenSeparator_seps [] (Seps.blanks [] (by simp)) l c t sk hc h47
+  simpa using readTokenSeparator_seps [] (Seps.blanks [] (by simp)) l c t sk hc h47 h92
 
 theorem space_not_kwc {c : Byte} (h : isSpace c = true) : kwc c = false := by
   simp [isSpace, kwc, isAlnum, isAlpha, isUpper, isLower, isDigit] at *; bomega
@@ -179,7 +180,7 @@ theorem readInstance_rec (ops : FloatOps F) (lex : LexCfg) (cfg : RWCfg) (d : Di
       .ok { s := G l' rest sk', inst := some { inst with parts := [{ p with vals := r.ps.map (·.v) }], state := .complete },
             reported := some .null, left := some .null } := by
   obtain ⟨dne, ddig, dhi, h1, h2, h3, h4, hn0, hns, pne⟩ := hlex
-  obtain ⟨hn0s, hn047, hn038, hn040, hn033, hn035, hn0d, hn0k⟩ := alpha_facts hn0
+  obtain ⟨hn0s, hn047, hn038, hn040, hn033, hn035, hn0d, hn0k, hn092⟩ := alpha_facts hn0
   obtain ⟨c, u, hcu⟩ : ∃ c u, r.ds = c :: u := by
     cases hd : r.ds with
     | nil => exact absurd hd dne
@@ -196,7 +197,7 @@ theorem readInstance_rec (ops : FloatOps F) (lex : LexCfg) (cfg : RWCfg) (d : Di
     readTokenSeparator_seps r.s1 h1 (r.ds.reverse ++ l) 61 _ sk (by decide) (by decide)
   have e3 : readTokenSeparator (G (61 :: (r.s1.reverse ++ (r.ds.reverse ++ l))) (r.t2 rest) sk) =
       G (r.s2.reverse ++ 61 :: (r.s1.reverse ++ (r.ds.reverse ++ l))) (r.n0 :: (r.ns ++ r.t3 rest)) sk :=
-    readTokenSeparator_seps r.s2 h2 _ r.n0 _ sk hn0s hn047
+    readTokenSeparator_seps r.s2 h2 _ r.n0 _ sk hn0s hn047 hn092
   unfold readInstance
   rw [hs, e0]
   simp only [e1, Option.getD_some, hfind, hnew, bne_self_eq_false, Bool.false_eq_true, if_false]
@@ -209,7 +210,7 @@ theorem readInstance_rec (ops : FloatOps F) (lex : LexCfg) (cfg : RWCfg) (d : Di
   have e40 : (r.n0 == 40) = false := by simp [hn040]
   have e33 : (r.n0 == 33) = false := by simp [hn033]
   simp only [e38, e40, Bool.false_eq_true, if_false, bind, Except.bind, pure, Except.pure]
-  rw [readTokenSeparator_none _ r.n0 _ sk hn0s hn047, peekC_good]
+  rw [readTokenSeparator_none _ r.n0 _ sk hn0s hn047 hn092, peekC_good]
   simp only [e33, Bool.false_eq_true, if_false]
   obtain ⟨y, yr, hYe, hyk⟩ : ∃ y yr, r.t3 rest = y :: yr ∧ kwc y = false :=
     seps_then r.s3 h3 40 _ (fun c => kwc c = false) (fun c h => space_not_kwc h) (by decide) (by decide)
@@ -460,11 +461,11 @@ theorem skipInstance_passes (cfg : RWCfg) (hcfg : cfg.skipInstanceSkipsComments 
 theorem createInstance_rec (cfg : RWCfg) (hcfg : cfg.skipInstanceSkipsComments = true) (d : Dict) (m : Mgr F)
     (r : Rec F) (hlex : r.Lex) (hscan : ∀ q ∈ r.ps, ParamScan q) (hnone : m.find? r.id = none)
     (e : EntityD) (hent : d.entity? r.name = some e) (habs : e.abstract = false)
-    (l g : List Byte) (hg : Seps g) (c : Byte) (k : List Byte) (hc : isSpace c = false) (hc47 : c ≠ 47) :
+    (l g : List Byte) (hg : Seps g) (c : Byte) (k : List Byte) (hc : isSpace c = false) (hc47 : c ≠ 47) (hc92 : c ≠ 92) :
     ∃ l', createInstance cfg d m (G l (r.text (g ++ c :: k)) false) =
       .ok (some { id := r.id, parts := [{ name := r.name, vals := defaults e.attrs }] }, G l' (c :: k) false) := by
   obtain ⟨dne, ddig, dhi, h1, h2, h3, h4, hn0, hns, pne⟩ := hlex
-  obtain ⟨hn0s, hn047, hn038, hn040, hn033, hn035, hn0d, hn0k⟩ := alpha_facts hn0
+  obtain ⟨hn0s, hn047, hn038, hn040, hn033, hn035, hn0d, hn0k, hn092⟩ := alpha_facts hn0
   generalize hrest : g ++ c :: k = rest
   obtain ⟨c0, u, hcu⟩ : ∃ c0 u, r.ds = c0 :: u := by
     cases hd : r.ds with
@@ -475,14 +476,14 @@ theorem createInstance_rec (cfg : RWCfg) (hcfg : cfg.skipInstanceSkipsComments =
   obtain ⟨x, xr, hXe, hxd⟩ : ∃ x xr, r.t1 rest = x :: xr ∧ isDigit x = false :=
     seps_then r.s1 h1 61 _ (fun c => isDigit c = false) (fun c h => space_not_digit h) (by decide) (by decide)
   have e0 : readTokenSeparator (G l (r.text rest) false) = G l (r.text rest) false := by
-    unfold Rec.text; rw [hcu]; exact readTokenSeparator_none l c0 _ false (digit_not_space hcd) hc047
+    unfold Rec.text; rw [hcu]; exact readTokenSeparator_none l c0 _ false (digit_not_space hcd) hc047 (by intro h; rw [h] at hcd; exact absurd hcd (by decide))
   have e1 : (G l (r.text rest) false).extractInt32 = (some r.id, G (r.ds.reverse ++ l) (r.t1 rest) false) := by
     unfold Rec.text; rw [hXe]; exact extractInt32_digits r.ds dne ddig dhi l x xr false hxd
   have e2 : readTokenSeparator (G (r.ds.reverse ++ l) (r.t1 rest) false) = G (r.s1.reverse ++ (r.ds.reverse ++ l)) (61 :: r.t2 rest) false :=
     readTokenSeparator_seps r.s1 h1 (r.ds.reverse ++ l) 61 _ false (by decide) (by decide)
   have e3 : readTokenSeparator (G (61 :: (r.s1.reverse ++ (r.ds.reverse ++ l))) (r.t2 rest) false) =
       G (r.s2.reverse ++ 61 :: (r.s1.reverse ++ (r.ds.reverse ++ l))) (r.n0 :: (r.ns ++ r.t3 rest)) false :=
-    readTokenSeparator_seps r.s2 h2 _ r.n0 _ false hn0s hn047
+    readTokenSeparator_seps r.s2 h2 _ r.n0 _ false hn0s hn047 hn092
   unfold createInstance
   rw [e0]
   simp only [e1, Option.getD_some, hnone, Option.isSome_none, Bool.false_eq_true, if_false]
@@ -510,7 +511,7 @@ theorem createInstance_rec (cfg : RWCfg) (hcfg : cfg.skipInstanceSkipsComments =
   simp only
   rw [show bytesToString (upperBytes (r.n0 :: r.ns)) = r.name from rfl, hent]
   simp only [habs, Bool.false_eq_true, if_false]
-  rw [← hrest, readTokenSeparator_seps g hg _ c k false hc hc47]
+  rw [← hrest, readTokenSeparator_seps g hg _ c k false hc hc47 hc92]
   exact ⟨_, rfl⟩
 
 /-! ## the data section: records up to `ENDSEC;` -/
@@ -631,9 +632,9 @@ theorem readData1Loop_recs (cfg : RWCfg) (hcfg : cfg.skipInstanceSkipsComments =
     match fuel, hf with
     | n + 1, hf =>
       obtain ⟨c, k, hKe, hc⟩ := renderRecs_head rs sp tail
-      have hcs : isSpace c = false ∧ c ≠ 47 := by rcases hc with rfl | rfl <;> exact ⟨by decide, by decide⟩
+      have hcs : isSpace c = false ∧ c ≠ 47 ∧ c ≠ 92 := by rcases hc with rfl | rfl <;> exact ⟨by decide, by decide, by decide⟩
       have hnone : st.mgr.find? r.id = none := find?_none st.mgr r.id (fun i hi => hfresh i hi (r, g) (by simp))
-      obtain ⟨l1, hci⟩ := createInstance_rec cfg hcfg d st.mgr r hlex hscan hnone e hent habs (35 :: (g0.reverse ++ l)) g hg c k hcs.1 hcs.2
+      obtain ⟨l1, hci⟩ := createInstance_rec cfg hcfg d st.mgr r hlex hscan hnone e hent habs (35 :: (g0.reverse ++ l)) g hg c k hcs.1 hcs.2.1 hcs.2.2
       rw [← hKe] at hci
       have hmk : ({ id := r.id, parts := [{ name := r.name, vals := defaults e.attrs }] } : MInst F) = mkInst d (r, g) := by
         simp [mkInst, hent]
